@@ -280,7 +280,8 @@ impl Responder {
                 log::info!(
                     "Transaction missed a confirmation: {} (missed conf count: {})",
                     penalty_summary.penalty_txid,
-                    current_height - h
+                    // The penalty may have been sent at a height that has been reorged out since
+                    current_height.saturating_sub(h)
                 );
             }
         }
